@@ -36,6 +36,11 @@ PRIM_SRC = {"U32": "u32", "String": "String", "Bool": "bool", "I32": "i32", "F64
 ALPHA = "ABCDEF"
 
 
+def nalpha(k):
+    """names are T + one of the first nalpha(k) letters (k <= 4: as many letters as files; beyond: three)"""
+    return max(2, k) if k <= 4 else 3
+
+
 def prog():
     global _PROG
     if _PROG is None:
@@ -168,7 +173,7 @@ def pipeline(I, ir, kinds, chars, order, multi):
     files = [mk_file(I, ir, kinds[i], i, chars[i], crate, fname, multi) for i in order]
     if multi:
         # crate b defines every name that can be imported
-        fb = [mk_file(I, ir, "S", 10 + j, ord(ch), "b", "b.ts", True) for j, ch in enumerate(ALPHA[:max(2, len(kinds))])]
+        fb = [mk_file(I, ir, "S", 10 + j, ord(ch), "b", "b.ts", True) for j, ch in enumerate(ALPHA[:nalpha(len(kinds))])]
         files = files + fb
     m = collect(I, files)
     cell = [m]
@@ -192,7 +197,7 @@ def case_fold(case):
     def entry(I):
         cs = chars()
         for c in cs:
-            I.assume(z3.Or([c == ord(x) for x in ALPHA[:max(2, k)]]))
+            I.assume(z3.Or([c == ord(x) for x in ALPHA[:nalpha(k)]]))
         m1, at1 = pipeline(I, ir, kinds, cs, list(range(k)), multi)
         m2, at2 = pipeline(I, ir, kinds, cs, list(perm), multi)
         return m1, at1, m2, at2
@@ -330,7 +335,7 @@ def run(rep, tier, only=None):
                         cases.append((ms, tuple(perm), multi))
     hcases = [(l, m) for l in LANGS for m in (False, True)]
     rep.bounds = {"fold": "arrival sequences of k files of one crate (+ a second crate in folder mode), one item per file of kind struct/enum/alias/const/(struct importing a foreign type), every multiset of kinds; "
-                          "k=2,3 (quick) and 4 (thorough): every permutation against the identity; k=5,6 (thorough): adjacent transpositions on a seed-rotated subset; item names symbolic: T + one of the first max(2,k) letters",
+                          "k=2,3 (quick) and 4 (thorough): every permutation against the identity; k=5,6 (thorough): adjacent transpositions on a seed-rotated subset; item names symbolic: T + one of the first k letters (three letters for k >= 5)",
                   "hash": "one fixed two-file tree per language and mode; every iteration order of every iterated HashMap/HashSet (sizes <= 4)"}
     rep.outside = ["the directory walk itself (ignore crate) and the crossbeam channel: the collector sees an arbitrary sequence", "thread count (it only influences the arrival order)",
                    "ordering of error reports"]
